@@ -115,6 +115,18 @@ CHECKS['C05'] = dict(
     technique='symbolic execution of the Python source over all short operation histories + Z3 per path; PoE oracle from constructor arguments',
 )
 
+CHECKS['C06'] = dict(
+    level='model_checking',
+    text='Symbolic execution of the real Arm Jacobian and statics methods (all joint values symbolic) on arms in four states '
+         '(fresh, moved, tool changed, tool restored): each column of the space/body/link Jacobians equals vee of the FORMAL '
+         'derivative of the symbolic FK output of the same real code (so a self-consistent Jacobian of the wrong model is '
+         'caught), body = Ad(inv T) space, frame-aligned variant, J qdot, torque.rate = wrench.twist in space and body form, '
+         'and the link-mass statics against a geometric oracle; obligations per path. numericalJacobian accuracy and the '
+         'statics round trip are exercised by concrete sampling only (stated).',
+    design='5/C06',
+    technique='symbolic execution of the Python source + formal differentiation of the symbolic FK + Z3 per path',
+)
+
 NOT_APPLICABLE = {
 }
 
